@@ -16,12 +16,18 @@ package main
 
 import (
 	"context"
+	"encoding/binary"
 	"fmt"
 	"io"
 	"log"
 	"log/slog"
+	"math"
+	"strings"
+	"sync/atomic"
 	"testing"
 	"time"
+
+	"github.com/aws/aws-sdk-go-v2/service/s3"
 
 	"github.com/KafScale/platform/internal/vfc10gen"
 	"github.com/KafScale/platform/internal/vfc11kit"
@@ -75,6 +81,86 @@ func (c11Backend) Handle(ctx context.Context, header *protocol.RequestHeader, re
 	}
 	resp := req.ResponseKind()
 	return protocol.EncodeResponse(header.CorrelationID, header.APIVersion, resp), nil
+}
+
+// c11S3 is an S3 API that accepts everything (the LFS module only uploads when a record
+// carries an LFS_BLOB header).
+type c11S3 struct{}
+
+func (c11S3) CreateMultipartUpload(context.Context, *s3.CreateMultipartUploadInput, ...func(*s3.Options)) (*s3.CreateMultipartUploadOutput, error) {
+	id := "vf"
+	return &s3.CreateMultipartUploadOutput{UploadId: &id}, nil
+}
+func (c11S3) UploadPart(context.Context, *s3.UploadPartInput, ...func(*s3.Options)) (*s3.UploadPartOutput, error) {
+	e := "etag"
+	return &s3.UploadPartOutput{ETag: &e}, nil
+}
+func (c11S3) CompleteMultipartUpload(context.Context, *s3.CompleteMultipartUploadInput, ...func(*s3.Options)) (*s3.CompleteMultipartUploadOutput, error) {
+	return &s3.CompleteMultipartUploadOutput{}, nil
+}
+func (c11S3) AbortMultipartUpload(context.Context, *s3.AbortMultipartUploadInput, ...func(*s3.Options)) (*s3.AbortMultipartUploadOutput, error) {
+	return &s3.AbortMultipartUploadOutput{}, nil
+}
+func (c11S3) PutObject(context.Context, *s3.PutObjectInput, ...func(*s3.Options)) (*s3.PutObjectOutput, error) {
+	return &s3.PutObjectOutput{}, nil
+}
+func (c11S3) GetObject(context.Context, *s3.GetObjectInput, ...func(*s3.Options)) (*s3.GetObjectOutput, error) {
+	return nil, fmt.Errorf("vf: no such object")
+}
+func (c11S3) DeleteObject(context.Context, *s3.DeleteObjectInput, ...func(*s3.Options)) (*s3.DeleteObjectOutput, error) {
+	return &s3.DeleteObjectOutput{}, nil
+}
+func (c11S3) HeadBucket(context.Context, *s3.HeadBucketInput, ...func(*s3.Options)) (*s3.HeadBucketOutput, error) {
+	return &s3.HeadBucketOutput{}, nil
+}
+func (c11S3) CreateBucket(context.Context, *s3.CreateBucketInput, ...func(*s3.Options)) (*s3.CreateBucketOutput, error) {
+	return &s3.CreateBucketOutput{}, nil
+}
+
+func c11LfsModule() *lfsModule {
+	logger := slog.New(slog.NewTextHandler(io.Discard, nil))
+	m := &lfsModule{
+		logger:      logger,
+		s3Uploader:  &s3Uploader{bucket: "c11-bucket", region: "us-east-1", chunkSize: 5 << 20, api: c11S3{}},
+		s3Bucket:    "c11-bucket",
+		s3Namespace: "ns11",
+		maxBlob:     5 << 30,
+		chunkSize:   5 << 20,
+		checksumAlg: "sha256",
+		proxyID:     "c11-proxy",
+		metrics:     newLfsMetrics(),
+		tracker:     &LfsOpsTracker{config: TrackerConfig{}, logger: logger},
+	}
+	atomic.StoreUint32(&m.s3Healthy, 1)
+	return m
+}
+
+// c11HostileBatch: a v2 record batch whose NumRecords / record section do not fit together.
+func c11HostileBatch(t *rapid.T, label string) ([]byte, string) {
+	n := rapid.IntRange(1, 3).Draw(t, label+"recs")
+	b := vfc10gen.RecordBatch(n, []byte("value"))
+	class := ""
+	switch rapid.IntRange(0, 3).Draw(t, label+"shape") {
+	case 0, 1:
+		nr := rapid.SampledFrom([]int32{-1, math.MinInt32, 0, int32(n + 1), int32(n - 1), math.MaxInt32, 1 << 30, -2}).Draw(t, label+"numrecords")
+		binary.BigEndian.PutUint32(b[57:61], uint32(nr))
+		class = fmt.Sprintf("numrecords=%d(have %d)", nr, n)
+	case 2: // malformed record section, count left alone
+		k := rapid.IntRange(0, len(b)-61).Draw(t, label+"junk")
+		junk := rapid.SliceOfN(rapid.Byte(), k, k).Draw(t, label+"junkbytes")
+		b = append(b[:61:61], junk...)
+		binary.BigEndian.PutUint32(b[8:12], uint32(len(b)-12))
+		class = "junk-record-section"
+	default: // record section cut short
+		k := rapid.IntRange(61, len(b)).Draw(t, label+"cut")
+		b = b[:k:k]
+		binary.BigEndian.PutUint32(b[8:12], uint32(len(b)-12))
+		class = "truncated-record-section"
+	}
+	if rapid.Bool().Draw(t, label+"second-batch") {
+		b = append(b, vfc10gen.RecordBatch(1, []byte("ok"))...)
+	}
+	return b, class
 }
 
 func c11ProxyMetadata(backendHost string, backendPort int32) metadata.ClusterMetadata {
@@ -151,6 +237,29 @@ func TestVF_C11_Proxy(t *testing.T) {
 	} else {
 		_ = c.Close()
 	}
+	// the same proxy with the LFS module enabled (every produced batch is decoded for LFS_BLOB headers)
+	lfsAddr, err := vfc11kit.PickPort()
+	if err != nil {
+		fail("cannot reserve a loopback port: %v", err)
+	}
+	pl := &proxy{
+		addr: lfsAddr, advertisedHost: "proxy.example", advertisedPort: 9092,
+		store:    metadata.NewInMemoryStore(c11ProxyMetadata(host, port)),
+		backends: []string{backendAddr}, logger: slog.New(slog.NewTextHandler(io.Discard, nil)),
+		dialTimeout: 5 * time.Second, cacheTTL: time.Hour, apiVersions: generateProxyApiVersions(),
+		brokerAddrs: make(map[string]string), topicNames: make(map[[16]byte]string),
+		backendRetries: 2, backendBackoff: time.Millisecond, lfs: c11LfsModule(),
+	}
+	pl.setCachedBackends(pl.backends)
+	pl.touchHealthy()
+	pl.setReady(true)
+	pl.refreshMetadataCache(ctx)
+	go func() { _ = pl.listenAndServe(ctx) }()
+	if c, err := vfc11kit.DialRetry(lfsAddr); err != nil {
+		fail("LFS-enabled proxy did not come up: %v", err)
+	} else {
+		_ = c.Close()
+	}
 
 	env := &vfc10gen.Env{
 		Bounded: true,
@@ -171,7 +280,12 @@ func TestVF_C11_Proxy(t *testing.T) {
 		if inconclusive != "" {
 			t.Skip(inconclusive)
 		}
-		conn, err := vfc11kit.DialRetry(proxyAddr)
+		lfsMode := rapid.IntRange(0, 2).Draw(t, "lfs-enabled") == 0
+		target, mode := proxyAddr, "plain"
+		if lfsMode {
+			target, mode = lfsAddr, "lfs"
+		}
+		conn, err := vfc11kit.DialRetry(target)
 		if err != nil {
 			inconclusive = "cannot connect to the proxy under test: " + err.Error()
 			t.Skip(inconclusive)
@@ -181,6 +295,36 @@ func TestVF_C11_Proxy(t *testing.T) {
 		for i := 0; i < n; i++ {
 			st.Eval()
 			pr := vfc11kit.GenProbe(t, tb, env, fmt.Sprintf("r%d-", i))
+			st.Class("mode:" + mode)
+			if lfsMode && rapid.Bool().Draw(t, fmt.Sprintf("r%d-hostile-produce", i)) {
+				// a Produce (record format v2 versions) whose batches do not add up
+				r := tb.Ranges[0]
+				lo := r[0]
+				if lo < 3 {
+					lo = 3
+				}
+				ver := int16(rapid.IntRange(int(lo), int(r[1])).Draw(t, fmt.Sprintf("r%d-pver", i)))
+				req := kmsg.NewPtrProduceRequest()
+				req.SetVersion(ver)
+				req.Acks = int16(rapid.SampledFrom([]int{1, -1, 1, 0}).Draw(t, fmt.Sprintf("r%d-acks", i)))
+				req.TimeoutMillis = 1000
+				tp := kmsg.NewProduceRequestTopic()
+				tp.Topic = rapid.SampledFrom([]string{"orders", "payments", "no-such-topic"}).Draw(t, fmt.Sprintf("r%d-ptopic", i))
+				np := rapid.IntRange(1, 2).Draw(t, fmt.Sprintf("r%d-parts", i))
+				for k := 0; k < np; k++ {
+					pp := kmsg.NewProduceRequestTopicPartition()
+					pp.Partition = int32(k)
+					var cl string
+					pp.Records, cl = c11HostileBatch(t, fmt.Sprintf("r%d-b%d-", i, k))
+					st.Class("lfs-batch:" + cl[:strings.IndexAny(cl+"=", "=")])
+					tp.Partitions = append(tp.Partitions, pp)
+				}
+				req.Topics = append(req.Topics, tp)
+				pr.Key, pr.Version, pr.Class, pr.Advertised, pr.Req = 0, ver, "advertised", true, req
+				pr.Acks0 = req.Acks == 0
+				pr.Shape = &vfc10gen.Shape{}
+				st.Class("lfs-hostile-produce")
+			}
 			if req, ok := pr.Req.(*kmsg.ProduceRequest); ok && req.Acks == 0 && len(req.Topics) == 0 {
 				// acks=0 with an empty topic list is forwarded raw and the proxy then waits for a
 				// backend reply that acks=0 never produces: the connection stalls. Only a timeout
@@ -219,7 +363,7 @@ func TestVF_C11_Proxy(t *testing.T) {
 					t.Fatalf("%s is advertised by the proxy but the connection was closed without a reply (%v)\nshape=%s frame=%x", pr.Name(), out.Err, pr.Shape, c11Clip(pr.Frame))
 				}
 			case "reply", "reply-then-closed":
-				if pr.Acks0 {
+				if pr.Acks0 && out.Kind == "reply" {
 					t.Fatalf("%s with acks=0 via proxy got a reply frame (%d bytes): the client reads none, so the next request on this connection is answered with this stale frame\nshape=%s request=%x reply=%x",
 						pr.Name(), len(out.Reply), pr.Shape, c11Clip(pr.Frame), c11Clip(out.Reply))
 				}
@@ -237,7 +381,7 @@ func TestVF_C11_Proxy(t *testing.T) {
 			if pr.Shape.IDs > 0 {
 				idform = "topic-ids"
 			}
-			if st.NonTrivial(pr.Key, pr.Version, pr.Class, fl, idform, pr.Shape.String(), out.Kind) {
+			if st.NonTrivial(pr.Key, pr.Version, pr.Class, mode, fl, idform, pr.Shape.String(), len(pr.Frame), out.Kind) {
 				st.Sample(map[string]any{"api": pr.Name(), "class": pr.Class, "shape": pr.Shape.String(), "outcome": out.Kind})
 			}
 			if out.Kind == "closed" || out.Kind == "reply-then-closed" {
